@@ -142,9 +142,66 @@ SEL_CELL_EXCEPT = {
                                      "before the store; an invalid row returns Err first",
     ("on_paste_styles", "range[3]"): "last_column bounds the inner loop whose body validates every (row, column) through set_cell_style(..)? "
                                      "before the store",
-    ("on_page_up", "row"): "first_row starts at the stored top_row and is only decremented (while first_row > 1), so first_row + (row - top_row) "
-                           "lies between 1 and the stored, valid row",
+    ("on_page_up", "row"): "max(1, first_row + (row - top_row)) with first_row <= the stored top_row: at least 1 by the max, at most the stored, "
+                           "valid row (the earlier version of this entry claimed the lower bound without the max: it was wrong when the cell is "
+                           "above the window, see known_findings)",
 }
+
+
+RANGE_ANCHOR_EXCEPT = {
+    "set_selected_range": "validates explicitly that the stored selected cell is one of the four corners of the requested range and returns Err otherwise",
+    "on_paste_styles": "keeps the start of the previous range and only moves its end outwards (max(old end, start + pasted extent - 1)): a superset of a range that contained the cell",
+}
+
+
+def range_anchor(ck, F, rule="SEL-CELL"):
+    """The selected cell lies inside the selected range: every store of a whole range `[r1, c1, r2, c2]` into
+    WorksheetView.range has one corner -- (r1, c1) or (r2, c2) -- with the provenance of the selected cell itself: the values the
+    same function stores into view.row / view.column, or the stored view.row / view.column fields.  A range anchored on
+    anything else (the start of the previous range, a parameter) can leave the cell outside it."""
+    n = 0
+    for path in sorted(F.body_paths()):
+        h = F.heads[path]
+        if h["crate"] != "ironcalc_base" or h.get("impl_trait") or h.get("impl_adt") != USERMODEL or WSVIEW not in F._raw[path]:
+            continue
+        body = F.body(path)
+
+        def prov(o):
+            return frozenset(x for x in sources(body, o) if x[0] != "via")
+        rows, cols, ranges = {frozenset({("field", WSVIEW, "row")})}, {frozenset({("field", WSVIEW, "column")})}, []
+        for bi, si, s in body.stmts():
+            if not place_proj(s["p"]):
+                continue
+            p = body.resolve_place(s["p"], through_named=True)
+            fs = [e for e in place_proj(p) if e[0] == "f"]
+            if not fs or fs[-1][3] != WSVIEW or fs[-1][2] not in ("row", "column", "range") or place_proj(p)[-1] is not fs[-1]:
+                continue
+            rv = s["rv"]
+            if fs[-1][2] == "range":
+                ops = None
+                if rv["k"] == "use":
+                    r = body.trace(rv["o"])
+                    if r["kind"] == "rv" and r["rv"]["k"] == "agg" and r["rv"].get("agg") == "array":
+                        ops = r["rv"]["ops"]
+                elif rv["k"] == "agg":
+                    ops = rv["ops"]
+                if ops and len(ops) == 4:
+                    ranges.append((bi, si, ops))
+            elif rv["k"] == "use":
+                (rows if fs[-1][2] == "row" else cols).add(prov(rv["o"]))
+        for k, (bi, si, ops) in enumerate(ranges, 1):
+            sa = [prov(o) for o in ops]
+            ok = (sa[0] in rows and sa[1] in cols) or (sa[2] in rows and sa[3] in cols)
+            n += 1
+            f, l = body.loc(bi, si)
+            if not ok and h["name"] in RANGE_ANCHOR_EXCEPT:
+                ck.ob(rule, "%s|range#%d anchored on the selected cell" % (h["name"], k), True, RANGE_ANCHOR_EXCEPT[h["name"]], nontrivial=False)
+                continue
+            ck.ob(rule, "%s|range#%d anchored on the selected cell" % (h["name"], k), ok,
+                  "%s stores a selected range neither of whose corners is the selected cell (corner 1 from %s, corner 2 from %s): the cell can "
+                  "end up outside the range" % (h["name"], sorted(map(str, sa[0] | sa[1]))[:3], sorted(map(str, sa[2] | sa[3]))[:3]), f, l,
+                  sample={"fn": h["name"]})
+    ck.note("range_stores", n)
 
 
 def sel_cell(ck, F):
@@ -192,6 +249,49 @@ def sel_cell(ck, F):
     ck.note("stores", n)
 
 
+def _root_var(body, o):
+    """The named variable (or parameter) an operand is a plain copy of, following unnamed single-definition temps; None if
+    it is not a copy of one."""
+    from mir import op_place, place_proj
+    pl = op_place(o)
+    if pl is None or place_proj(pl):
+        return None
+    l = pl["l"]
+    for _ in range(6):
+        if body.local_name(l) or 1 <= l <= body.nargs:
+            return l
+        ds = body.defs().get(l, [])
+        if len(ds) != 1 or ds[0][1] == "t":
+            return None
+        rv = body.blocks[ds[0][0]]["s"][ds[0][1]]["rv"]
+        if rv["k"] != "use":
+            return None
+        q = op_place(rv["o"])
+        if q is None or place_proj(q):
+            return None
+        l = q["l"]
+    return None
+
+
+_RD = {}
+
+
+def _same_value(body, var, at_a, at_b):
+    """The definitions of `var` reaching program point at_a = (block, 't') are those reaching at_b: the variable was not
+    re-assigned in between (a validation of an earlier value says nothing about the value stored later)."""
+    from mir import reaching_defs, defs_reaching
+    IN = _RD.get(id(body))
+    if IN is None:
+        IN = _RD[id(body)] = reaching_defs(body)
+    return defs_reaching(body, IN, at_a[0], at_a[1], var) == defs_reaching(body, IN, at_b[0], at_b[1], var)
+
+
+class _Key(frozenset):
+    """provenance set of a validated operand, carrying the variable it was read from and where"""
+    var = None
+    at = None
+
+
 def _validated_roots(body, preds=("is_valid_row", "is_valid_column_number")):
     """[(provenance frozenset, switch block, ok target, failing target)] for calls to the validators `preds`."""
     out = []
@@ -199,7 +299,9 @@ def _validated_roots(body, preds=("is_valid_row", "is_valid_column_number")):
         q = (body.callee_q(t) or "").rsplit("::", 1)[-1]
         if q not in preds:
             continue
-        sr = frozenset(sources(body, t["args"][0]))
+        sr = _Key(sources(body, t["args"][0]))
+        sr.var = _root_var(body, t["args"][0])
+        sr.at = (bi, "t")
         # find switch
         for sb, blk in enumerate(body.blocks):
             tt = blk["t"]
@@ -222,8 +324,11 @@ def _validated_roots(body, preds=("is_valid_row", "is_valid_column_number")):
 def validated_at(body, bi, operand, preds):
     """The operand's value passed one of the validators `preds` on every path to block bi."""
     key = frozenset(sources(body, operand))
+    var = _root_var(body, operand)
     for vsr, sb, t_t, f_t in _validated_roots(body, preds):
         if vsr == key and body.dominates(sb, bi) and (f_t is None or bi not in body.reachable_from(f_t, avoid={sb})):
+            if var is not None and vsr.var == var and not _same_value(body, var, vsr.at, (bi, "t")):
+                continue       # the variable was re-assigned after it was validated
             return True
     return False
 
@@ -238,9 +343,16 @@ def _operand_valid(body, o, bi, validated):
         # pure copy of stored values: no arithmetic, no call
         return True, "copied from stored view field"
     key = frozenset(sr)
+    var = _root_var(body, o)
+    stale = False
     for vsr, sb, t_t, f_t in validated:
         if vsr == key and body.dominates(sb, bi) and (f_t is None or bi not in body.reachable_from(f_t, avoid={sb})):
+            if var is not None and getattr(vsr, "var", None) == var and not _same_value(body, var, vsr.at, (bi, 0)):
+                stale = True
+                continue
             return True, "validated by is_valid_*"
+    if stale:
+        return False, "a value of `%s` assigned after the is_valid_* test" % (body.local_name(var) or "_%d" % var)
     calls = {x[1].rsplit("::", 1)[-1] for x in sr if x[0] == "call"}
     return False, "from %s" % sorted(map(str, sr))[:4]
 
